@@ -92,3 +92,23 @@ Lemma C16_refuted_empty_methods :
   exists b, socks_session_legacy (fun _ _ => true) b = [SEnd] /\
             socks_session (fun _ _ => true) b = [SWrite [5; 255]; SEnd].
 Proof. exists [5; 0]. split; vm_compute; reflexivity. Qed.
+
+(* ---------------- C15: an empty datagram ended the association (fixed by c7f42e2) ---------------- *)
+From AnyTLS Require Import Udp.
+
+(* pinned loops: `if payload.is_empty() { break }` = udp_loop with stop = true.  Three datagrams are sent,
+   the second one empty: the third is never delivered *)
+Lemma C15_refuted_empty_datagram :
+  exists ds, Forall (fun d => lenN d <= 65535) ds /\
+    udp_decode_all true 65535 (concat (map udp_frame ds)) = ([[65]], UStop (udp_frame [66])) /\
+    udp_decode_all false 65535 (concat (map udp_frame ds)) = (ds, UMore []).
+Proof.
+  exists [[65]; []; [66]]. split; [repeat constructor; vm_compute; discriminate|].
+  split; vm_compute; reflexivity.
+Qed.
+
+(* ---------------- C07/C15: the server's UDP socket was always AF_INET (fixed by 504704f) ---------------- *)
+Definition udp_bind_fam_legacy (target : fam_t) : fam_t := F4.      (* UdpSocket::bind("0.0.0.0:0") *)
+
+Lemma C15_refuted_ipv6_target : exists t, udp_can_send (udp_bind_fam_legacy t) t = false.
+Proof. exists F6. reflexivity. Qed.
